@@ -63,6 +63,7 @@ Relations ==
     /\ EmptyIffEqual(aux.a, aux.b, aux.o, aux.d)
     /\ ListModeO(aux.o) => (HasContext(aux.d) /\ Recurses(aux.d) /\ Minimal(aux.a, aux.b, aux.d) /\ IndicesIncrease(aux.d))
     /\ MentionsOnlyDifferences(aux.a, aux.b, aux.o, aux.d)
+    /\ (~aux.o.merge /\ Reading(aux.o) = "list") => NoSharedPartReplaced(aux.d)
     /\ NoRedundantHunk(aux.a, aux.b, aux.o, aux.d)
     /\ NormDiff(aux.d) = aux.d
 
